@@ -189,6 +189,8 @@ def o_entry(src, data, kw, pre, positional):
             return ('err', type(e).__name__)
     ref = attempt(lambda: c.parse(data, **kw))
     ways = [('bytearray', lambda: c.parse(bytearray(data), **kw)), ('memoryview', lambda: c.parse(memoryview(data), **kw)),
+            ('memoryview slice', lambda: c.parse(memoryview(b'\x09\x08' + data + b'\x07')[2:-1], **kw)),
+            ('memoryview of a bytearray slice', lambda: c.parse(memoryview(bytearray(b'\xff' + data + b'\xfe\xfd'))[1:-2], **kw)),
             ('parse_stream', lambda: c.parse_stream(io.BytesIO(data), **kw))]
     fd, fn = tempfile.mkstemp(prefix='c17_')
     try:
@@ -283,6 +285,12 @@ def pool_value(rng, name):
         return dict(h=s0(), t=rng.choice([1, 7, 255]), z=[s1(n)]), kw
     if name == 'S11':
         return s0(), kw
+    if name == 'S12':
+        # sometimes a value whose build fails half way through (b does not fit a byte)
+        return dict(a=rng.randrange(256), b=rng.choice([1, 7, 300, 255, -1]), c=s0()), kw
+    if name == 'S13':
+        mk = lambda: dict(a=rng.randrange(256), b=rng.choice([1, 300, 9]), c=s0())
+        return dict(p=mk(), q=mk(), t=rng.randrange(256)), kw
     raise KeyError(name)
 
 
